@@ -349,6 +349,7 @@ impl Ddl {
 pub struct GenD { pub g: Gen, /// only what the backend renders without panicking, raw text plain
     pub tame: bool }
 
+const QUOTE_NAMES: &[&str] = &["we\"ird", "ti`ck", "a\"\"b", "``", "x\"", "`y", "q'uote", "[br]"];
 const RAW_TYPES: &[&str] = &["citext", "geometry", "my_type", "int8", "varchar(20)"];
 const ENGINES: &[&str] = &["InnoDB", "MyISAM"];
 const COLLATES: &[&str] = &["utf8mb4_unicode_ci", "C"];
@@ -360,7 +361,11 @@ impl GenD {
     pub fn new(rng: SplitMix64, b: B, tame: bool) -> Self { let mut g = Gen::new(rng, b, true); g.plain = true; GenD { g, tame } }
     fn r(&mut self) -> &mut SplitMix64 { &mut self.g.rng }
     fn b(&self) -> B { self.g.b }
-    pub fn name(&mut self) -> String { if self.tame || self.r().chance(3, 4) { self.r().pick(crate::stmt::PLAIN_NAMES).to_string() } else { self.r().pick(crate::stmt::NAMES).to_string() } }
+    /// wild stream: a quarter of the names contain a quote character of some dialect (every call site must escape it), another quarter are other unusual names
+    pub fn name(&mut self) -> String {
+        if self.tame { return self.r().pick(crate::stmt::PLAIN_NAMES).to_string(); }
+        match self.r().below(4) { 0 => self.r().pick(QUOTE_NAMES).to_string(), 1 => self.r().pick(crate::stmt::NAMES).to_string(), _ => self.r().pick(crate::stmt::PLAIN_NAMES).to_string() }
+    }
     fn tname(&mut self, max_parts: usize) -> TName {
         let n = if self.tame { 1 + self.r().below(max_parts as u64) as usize } else { match self.r().below(8) { 0 => 3, 1 | 2 => 2, _ => 1 } };
         let alias = if !self.tame && self.r().chance(1, 20) { Some(self.name()) } else { None };
@@ -482,6 +487,20 @@ impl GenD {
     }
 }
 
+/// every string of the recipe (names, comments, raw texts, string values), decoded
+fn recipe_strings(recipe: &str) -> std::collections::HashSet<String> {
+    let mut out = std::collections::HashSet::new();
+    for tok in recipe.split(|c: char| c == ' ' || c == '(' || c == ')') {
+        if let Some(h) = tok.strip_prefix("h:") {
+            let bytes: Vec<u8> = (0..h.len() / 2).filter_map(|i| u8::from_str_radix(&h[2 * i..2 * i + 2], 16).ok()).collect();
+            if let Ok(s) = String::from_utf8(bytes) { out.insert(s); }
+        }
+    }
+    out
+}
+/// string literals that are not given as `h:` strings in the recipe: Postgres bytea literals, the empty label of an empty MySQL ENUM
+fn tame_value_ok(v: &str) -> bool { v.is_empty() || v.starts_with("\\x") }
+
 /// the correspondence stream: every generated schema statement is rendered by the crate's three entry points and by the model
 pub fn run_stream(ctx: &mut crate::Ctx, backends: &[B], n: usize) {
     let mut rng = ctx.rng.fork();
@@ -500,6 +519,30 @@ pub fn run_stream(ctx: &mut crate::Ctx, backends: &[B], n: usize) {
         let sq = recipe.clone();
         ctx.case_norm(format!("ddl {} {}", b.name(), recipe), exp, true, &move || format!("{} {}", b.name(), sq), crate::c01::strip_flags(false));
         let Some(r) = r else { continue };
+        // ---- independent oracles on the crate's text (reference lexer of the dialect, reference DDL grammar)
+        let mut strings = recipe_strings(&recipe);
+        // quoted parts of caller-supplied raw text, and the element type of an array cast, are given inside a longer string
+        let extra: Vec<String> = strings.iter().flat_map(|s| {
+            let mut v = Vec::new();
+            if let Some(p) = s.strip_suffix("[]") { v.push(p.to_string()); }
+            if s.contains('\'') || s.contains('"') || s.contains('`') { if let Ok(ts) = crate::reflex::lex(b, s) { for t in ts { match t { crate::reflex::Tok::Str(x) | crate::reflex::Tok::Ident(x) => v.push(x), _ => {} } } } }
+            v }).collect();
+        strings.extend(extra);
+        match crate::reflex::lex(b, &r) {
+            Err(e) => { if tame { ctx.oracle_fail("the schema statement cannot be read by the dialect's lexer", serde_json::json!({"backend": b.name(), "recipe": recipe, "sql": r, "error": e})); } else { ctx.count("ddl.wild.unlexable"); } }
+            Ok(toks) => {
+                ctx.count("ddl.oracle.lexed");
+                for t in &toks {
+                    match t {
+                        crate::reflex::Tok::Ident(n) if !strings.contains(n) && n != "excluded" =>
+                            ctx.oracle_fail("an identifier the engine reads in the schema statement is not a name that was declared", serde_json::json!({"backend": b.name(), "recipe": recipe, "sql": r, "engine_reads": n})),
+                        crate::reflex::Tok::Str(v) if !strings.contains(v) && !tame_value_ok(v) =>
+                            ctx.oracle_fail("a string literal the engine reads in the schema statement is not a string that was given", serde_json::json!({"backend": b.name(), "recipe": recipe, "sql": r, "engine_reads": v})),
+                        _ => {}
+                    }
+                }
+            }
+        }
         // entry points agree; rendering is repeatable and leaves the statement unchanged
         let before = real.debug();
         for (name, got) in [("to_string", catch(|| real.to_string(b))), ("build_any", catch(|| real.build_any(b))), ("build (again)", catch(|| real.build(b)))] {
